@@ -185,7 +185,7 @@ class KeywordSearches:
             # Against an AoH, this will scan each element's immediate children,
             # treating and yielding as if this search were performed directly
             # against each map in the list.
-            if Nodes.node_is_aoh(data):
+            if Nodes.node_is_aoh(data, accept_nulls=True):
                 for idx, ele in enumerate(data):
                     next_path = translated_path + "[{}]".format(str(idx))
                     for aoh_match in KeywordSearches._has_concrete_child(
